@@ -91,6 +91,7 @@ def contract(cell, ir):
 
 def main(tier, write_baseline=False):
     run = Run("C05", tier, "other", checker_cmd=common.checker_cmd("C05", tier))
+    run.confirm_abstracted = ('default-emitted-as-given',)  # refutations of these exact contracts count only with an input that fails on the real code (report.Run.violation)
     M.RAISE_CTX.update(prop="C05", write=bool(write_baseline))
     run.trusted_base.update(["cddvc E1 block contracts with symbolic-key maps whose unknown base entries are materialised on read", "z3 5.1"])
     run.assumptions.add("idiom: any(filter(rpartial(str.startswith, '[PK]'), map(methodcaller('get', 'doc', ''), params.values()))) is true iff some column description starts with '[PK]' (the branch condition of the verified block)")
